@@ -62,6 +62,16 @@ CLAIMED = {
          "Every pair of kafka.Conn operations (14 operations incl. partial batch reads and short-buffer reads) is run with the first one answered by each of 12 error codes in each error field of each negotiable version (and without fault); the second operation's value digest and error class on the same Conn must equal those on a fresh Conn. Damaged frames (wrong correlation id, wrong length, trailing garbage) must never yield a value that differs from the fresh connection's.",
          "trusted: the fake broker answers deterministically; an error placed in a field the operation does not surface may leave it successful",
          "DESIGN.md section 5 C11"),
+ "C17": ("fault_enumeration",
+         "runtime monitor with complete enumeration of cut positions: every byte offset of the sample response of every (path, operation/api, version) x ending (EOF, ECONNRESET; thorough: silence), through kafka.Conn and through Transport.RoundTrip; plus a fixed Reader and Writer scenario with the first fetch/produce response cut at every byte judged by the C02/C01/C07 oracles",
+         "The undisturbed response of every kafka.Conn operation (14 operations, every negotiable version) and of 23 APIs x every mutually supported version through the Transport is measured, then the call is repeated once per cut position and ending: it must return an error (fetch: a prefix of the complete records then an error) or exactly the undisturbed result, within its deadline, without panic; the Conn must be dead afterwards; the Transport must not reuse the cut connection and the same call must succeed on a new one.",
+         "trusted: one sample response per (path, api, version) - other contents are sampled by C01/C02 with random cuts; the silence ending relies on the client's own deadline",
+         "DESIGN.md section 5 C17"),
+ "C18": ("exploration",
+         "runtime monitor: per-connection authentication state machine in the fake broker (reference PLAIN checker, xdg-go/scram server conversation over harness-derived keys) journaling every request and raw token with the state at arrival; faults at every step of every exchange",
+         "Dialer (Dial, DialLeader, LookupPartitions, Reader) and Transport (Client.Metadata, Client.Produce, Writer) paths with PLAIN and SCRAM-SHA-256/512, handshake v0 (raw tokens) and v1 (framed), credentials needing escaping and SASLprep, and failures injected at every step (unsupported mechanism, error codes, sabotaged SCRAM server messages, closes and cuts): nothing but ApiVersions/SaslHandshake/SaslAuthenticate may arrive before the broker accepted, failures must fail the dial and close the connection with nothing sent afterwards, and exchanges complete iff the credentials are right.",
+         "trusted: the reference SASL server (xdg-go/scram server side, harness PBKDF2, hand-written SASLprep atom table); SASLprep-prohibited names are not judged",
+         "DESIGN.md section 5 C18"),
 }
 
 REASON_NOT_BUILT = "check not built yet in this round (design in DESIGN.md section 5); no claim is made"
